@@ -34,6 +34,7 @@ type kase struct {
 	UIB     string `json:"userinfo_body,omitempty"`
 	IDSegs  int    `json:"id_token_segments,omitempty"`
 	PClass  string `json:"input_class,omitempty"` // class of the hostile input, used to name a crash
+	Decoy   string `json:"decoy_email,omitempty"` // e-mail-shaped value placed in fields that do not vouch
 	Skip    string `json:"-"`
 	descKey string
 
@@ -293,6 +294,38 @@ var optUIFields = map[string][]string{
 	"okta":    {"sub", "name", "groups", "zoneinfo", "preferred_username", "username"},
 	"cognito": {"sub", "username", "name", "cognito:groups", "groups", "identities"},
 }
+// decoy identities: fields other than the vouching e-mail field in which an e-mail-shaped string may sit
+var decoyFields = []string{"username", "preferred_username", "cognito:username", "sub", "name", "nickname", "upn", "unique_name",
+	"login", "emails", "email_address", "mail", "identities"}
+var decoyVouch = []string{"", "empty", "absent", "null", "number", "array", "unverified"} // index 1..5 = emNames, 6 = email_verified false
+var decoyLocs = []string{"token-answer", "id_token-claims", "userinfo"}
+var keySpellings = []string{"Email", "EMAIL", "eMail"}
+
+func decoyPairs(f int, decoy string) []pair {
+	var out []pair
+	for i, name := range decoyFields {
+		if f != len(decoyFields) && f != i {
+			continue
+		}
+		switch name {
+		case "emails":
+			out = append(out, pair{name, "[" + q(decoy) + "]"})
+		case "identities":
+			out = append(out, pair{name, `[{"userId":` + q(decoy) + `,"providerName":"SAML","primary":"true"}]`})
+		default:
+			out = append(out, pair{name, q(decoy)})
+		}
+	}
+	return out
+}
+
+func withAll(ps []pair, add []pair) []pair {
+	for _, a := range add {
+		ps = with(ps, a.k, a.raw)
+	}
+	return ps
+}
+
 var optClaims = []string{"iss", "aud", "sub", "iat", "exp", "nonce", "hd", "name"}
 
 // template lengths (every case of a provider has bodies of the same length, see mkIDs)
@@ -359,6 +392,30 @@ func buildSpecs(prov string, thorough bool) []spec {
 	for f := range optClaims {
 		for h := range hostile {
 			add("opt-claim", f, h, 0, 0)
+		}
+	}
+	// decoy identities: the vouching e-mail field missing / empty / null / mistyped / unverified while an
+	// e-mail-shaped decoy sits in another field of the token answer, the id_token claims or the userinfo answer
+	nloc := 3
+	if prov == "google" {
+		nloc = 2
+	}
+	for v := 1; v < len(decoyVouch); v++ {
+		if prov == "cognito" && v == 6 {
+			continue // cognito does not ask for verification
+		}
+		for f := 0; f <= len(decoyFields); f++ {
+			for loc := 0; loc < nloc; loc++ {
+				if f == len(decoyFields) && loc != 0 {
+					continue // "every field at once" fills all locations in one case
+				}
+				add("decoy-id", v, f, loc, 0)
+			}
+		}
+	}
+	for em := 1; em <= 3; em++ {
+		for sp := range keySpellings {
+			add("decoy-key-case", em, sp, 0, 0)
 		}
 	}
 	if prov == "google" {
@@ -625,6 +682,73 @@ func build(prov string, sp spec, id ids) kase {
 		k.Dims = "id_token=" + ri.name
 		k.IDSegs = ri.segs
 		refuse(ri.clause)
+	case "decoy-id":
+		v, f, loc := sp.a, sp.b, sp.c
+		all := f == len(decoyFields)
+		emr, evr := q(id.email), "false"
+		if v <= 5 {
+			emr, evr = emRaw(v, id.email), "true"
+		}
+		dps := decoyPairs(f, id.decoy)
+		tp := tps
+		if loc == 0 {
+			tp = withAll(tp, dps)
+		}
+		if prov == "google" {
+			P := payloadJSON(id.email, emr, evr)
+			if loc == 1 || all {
+				for _, d := range dps {
+					P = replaceClaim(P, d.k, d.raw)
+				}
+			}
+			tp = with(tp, "id_token", q(idToken(3, b64seg(0, P), sp.decoy, id)))
+		} else {
+			if loc == 1 || all {
+				P := payloadJSON(id.decoy, q(id.decoy), "true")
+				for _, d := range dps {
+					P = replaceClaim(P, d.k, d.raw)
+				}
+				tp = with(tp, "id_token", q(idToken(3, b64seg(0, P), sp.decoy, id)))
+			}
+			up := with(ups, "email", emr)
+			if prov == "okta" {
+				up = with(up, "email_verified", evr)
+			}
+			if loc == 2 || all {
+				up = withAll(up, dps)
+			}
+			k.UI.Body = obj(up)
+		}
+		k.Token.Body = obj(tp)
+		k.Decoy = id.decoy
+		fname := "every-field"
+		if !all {
+			fname = decoyFields[f]
+		}
+		k.PClass = "decoy-identity-" + fname
+		k.Dims = "email=" + decoyVouch[v] + " decoy-in=" + decoyLocs[loc] + "." + fname
+		if all {
+			k.Dims = "email=" + decoyVouch[v] + " decoy-in=every-field-everywhere"
+		}
+		if v == 6 {
+			refuse("email-unverified")
+		} else {
+			refuse("email-missing-or-mistyped")
+		}
+	case "decoy-key-case":
+		// the IdP spells the key differently and puts another address there: unsettled whether that IS the e-mail
+		// field (encoding/json says yes); if a session results it must be for that address
+		emr, key := emRaw(sp.a, id.email), keySpellings[sp.b]
+		if prov == "google" {
+			P := replaceClaim(payloadJSON(id.email, emr, "true"), key, q(id.decoy))
+			k.Token.Body = obj(with(tps, "id_token", q(idToken(3, b64seg(0, P), false, id))))
+		} else {
+			k.UI.Body = obj(append(with(ups, "email", emr), pair{key, q(id.decoy)}))
+		}
+		dont("key-case-variant")
+		k.Email, k.Decoy = id.decoy, ""
+		k.PClass = "decoy-identity-key-case-variant"
+		k.Dims = "email=" + emNames[sp.a] + " key=" + key
 	case "opt-tok":
 		f, h := optTokFields[sp.a], hostile[sp.b]
 		k.Token.Body = obj(with(tps, f, h.raw))
